@@ -264,6 +264,23 @@ def r6(ctx):
         ctx.check(e.kind == 'place' and e.root == ('param', 2) and not e.fields, R, b, 'default-postprocess-is-identity',
                   repr(e), 'the default ObservationMetric::postprocess_distances returns %r instead of its input: '
                   'results for which the metric yields a value are dropped for every metric that does not override it' % e)
+    # the metric's post-processing sees the distances of ONE (candidate, stored track) pair at a time: what it is given is
+    # the Ok payload of that pair's Track::distances. Applied to a concatenation (per command, per shard) a
+    # non-pointwise post-processing (best pair, top-k, normalisation) gives results that depend on the sharding.
+    ws = ctx.F.get(S.WORKER)
+    w = ws[0] if ws else None
+    if w is not None:
+        from lib import deep_calls
+        pcs = deep_calls(ctx.F, w, 'postprocess_distances')
+        for owner, c in pcs:
+            a = ExprBuilder(owner).arg(c, 1)
+            per_pair = any(x.kind == 'call' and x.name.endswith('track::Track::distances') for x in a.walk())
+            ctx.check(per_pair, R, w, 'postprocess-per-track-pair', repr(a)[:100],
+                      'postprocess_distances is applied to %r, not to the distances of one (candidate, stored track) pair '
+                      '(the Ok value of Track::distances): a metric whose post-processing is not pointwise returns results '
+                      'that depend on how tracks are spread over shards' % a, c.ln)
+        ctx.check(len(pcs) >= 1, R, w, 'postprocess-applied', '%d site(s)' % len(pcs),
+                  'the store worker no longer applies the metric\'s postprocess_distances to the distances it reports')
     d = ctx.anchor(R, '<track::store::TrackStore as std::ops::Drop>::drop')
     if d is not None:
         from lib import deep_calls
